@@ -6,10 +6,61 @@ from oracles import common_o as O
 from props._util import rng_for, run_cases
 
 LEVEL = "other"
-DEDUCTIVE = []
-TRUSTED = ["z3 5.1.0 / cvc5 1.0.3", "pyvc encoding of Python semantics (DESIGN 2.3)", "CPython 3.12"]
-ASSUMPTIONS = []
-EXPLANATION = "see DESIGN.md 4/C12"
+DEDUCTIVE = [{"module": "rnapolis.common", "sidecar": "contracts.common_elems_c",
+              "opts": {"z3_probe_ms": 800},
+              "targets": ["BpSeq.__post_init__", "BpSeq.__post_init__@any", "BpSeq.sequence", "BpSeq.from_dotbracket",
+                          "DotBracket.__post_init__@full", "DotBracket.without_pseudoknots", "BpSeq.without_pseudoknots",
+                          "BpSeq.without_isolated"]}]
+TRUSTED = ["z3 5.1.0 / cvc5 1.0.3", "pyvc encoding of Python semantics (DESIGN 2.3)", "CPython 3.12",
+           "external re.sub (contracts.common_elems_c._re_sub_brackets): for the one call of DotBracket.without_pseudoknots, a "
+           "character class replaced by '.' is the character-wise map c -> '.' if c in []{}<>A-Za-z else c"]
+ASSUMPTIONS = [
+    "assumed callee contract BpSeq.dot_bracket (MILP encoder, subject of C02/C13; never a verify target here): returns without "
+    "raising - on every access the same object, ghost slot self.dot_bracket_ (cached_property) - the text __make_dot_bracket "
+    "writes for the stems under SOME proper level assignment with at most 30 levels (ghost R, O, G, GS: regions_match, "
+    "regions_cover, proper, region_map, painted_g)",
+    "assumed callee contract BpSeq.elements, stems component only (stems_ok / stems_cover / stems_maximal / stems_inverse for "
+    "ghost S, GS and one Stem per run with the run's strand ends): proved for the local `stems` at the cut point of the C07 "
+    "prefix contract BpSeq.elements@prefix; that the loop-linking tail leaves `stems` and the Stem objects alone and returns it "
+    "as component 0 is a syntactic observation, not an engine proof",
+    "object invariant of BpSeq taken as precondition: valid(self.entries) (property quantifier 'valid BPSEQ structures'), "
+    "pairs_of(self.pairs, self.entries) (established by the proved BpSeq.__post_init__ contract on every construction) and "
+    "heap well-formedness 'the entries of an existing structure are existing objects' (the engine does not assume it for "
+    "references held in lists)",
+    "dataclass __post_init__ of Stem / SingleStrand / Hairpin / Loop (self.description = str(self)) is not modelled: it writes "
+    "only the undeclared field `description` of the object under construction",
+    "L-hist (lemma over the contracts, by induction on the call sequence, not an SMT obligation): see EXPLANATION",
+]
+EXPLANATION = (
+    "Functions under contract (sidecar contracts/common_elems_c.py, reusing the proved contracts of contracts/common_c.py): "
+    "BpSeq.__post_init__ (on valid entries: self.pairs[i] == j iff entry i is paired with j, both directions; variant @any: "
+    "the frame alone with no precondition), BpSeq.sequence (C01 contract), BpSeq.from_dotbracket (for ANY decoder output - "
+    "ordered positions, none twice - of equal-length sequence/structure: fresh valid structure, sequence preserved, pairs == "
+    "db.pairs shifted by one, symmetric, no pair invented), DotBracket.__post_init__@full (third contract on the decoder: "
+    "painted + general clauses of common_c and the ghost map 3' position -> decoded pair), DotBracket.without_pseudoknots "
+    "(round brackets kept, everything else dotted; decoder cannot fail; decoded pairs are exactly the level-0 region pairs), "
+    "BpSeq.without_pseudoknots (result pair at x == receiver's pair at x if the receiver's own dot-bracket text has '(' or ')' "
+    "at x, else 0; sequence unchanged; valid; fresh), BpSeq.without_isolated (ghost S, GS = the maximal runs of stacked pairs: "
+    "result pair at x == receiver's pair if its stem has length >= 2, else 0; sequence unchanged; valid; the receiver itself "
+    "when nothing is isolated, otherwise a fresh object of fresh entries). "
+    "FRAME (heart of C12): every one of these has modifies = [] (constructors: only the pairs slot of the object under "
+    "construction), so the engine emits frame.Cls.f obligations over ALL references allocated at entry for every field the "
+    "body writes (Entry.index_/sequence/pair, BpSeq.entries/pairs, DotBracket.*); loops that write carry the invariant "
+    "'only-fresh-entries-written' (forall e allocated at entry: e.pair == old(e.pair)). Restoring `entries = "
+    "self.entries.copy()` in without_isolated fails loop1.inv0[only-fresh-entries-written].preserve and frame.Entry.pair. "
+    "Queries whose bodies contain no store at all (__str__, sequence, paired, __eq__) have nothing to frame: the engine finds "
+    "the heap terms at exit identical to those at entry (no obligation); __str__'s text is a function of the entries' "
+    "(index_, sequence, pair) only (one join/format expression over reads; string building over a symbolic list is outside "
+    "the engine, so the text itself is not specified). "
+    "L-hist: let view(b) = [(e.index_, e.sequence, e.pair) for e in b.entries]. (1) every public method has modifies = fresh "
+    "only (proved above; for dot_bracket/fcfs/all_dot_brackets/elements: contracts of C01/C02/C16/C07, modifies = []), hence "
+    "view(b) and b.pairs never change after construction; (2) every cached value is a function of view(b) (functional "
+    "postconditions: sequence, __stems_entries, fcfs, dot_bracket, elements), so a slot filled at any time holds what a fresh "
+    "copy would compute; by induction on the length of the call sequence every answer equals the answer of a fresh copy. "
+    "The cached_property slots themselves are modelled as ghost fields (dot_bracket_, stems_) that each access returns. "
+    "Bounded only: the history quantifier itself (random call sequences against fresh copies), fcfs/all_dot_brackets/elements "
+    "as members of the history, and `returns self` aliasing effects across calls."
+)
 
 
 def has_isolated(p):
